@@ -51,6 +51,8 @@ type observed struct {
 	Route     string  `json:"route,omitempty"`
 	Abandoned bool    `json:"abandoned,omitempty"` // neither a reply nor the clean-up within eventDeadline
 	NotSent   bool    `json:"not_sent,omitempty"`  // the driver gave up before this request (an earlier one stalled)
+	// ResetUnseen: the slow filter did not hear of the client's reset within 3 s (its listener came too late)
+	ResetUnseen bool `json:"reset_unseen,omitempty"`
 }
 
 func inconclusive(t ev.TB, c *chainCase, format string, a ...interface{}) {
@@ -441,6 +443,7 @@ func execute(t ev.TB, c *chainCase) ([]string, []observed) {
 	}
 	for r := range obs {
 		obs[r].Calls = lg.get(tokens[r])
+		obs[r].ResetUnseen = lg.isUnseen(tokens[r])
 		us := up.ByToken(tokens[r])
 		obs[r].Upstream = len(us)
 		if len(us) > 0 {
@@ -718,6 +721,9 @@ type failure struct{ sig, msg string }
 func judge(c *chainCase, r int, e *expect, o *observed) (res *failure) {
 	if o.NotSent {
 		return nil
+	}
+	if o.ResetUnseen {
+		return nil // the slow filter never heard of the client's reset: the order of the two events is unknown
 	}
 	ctx := func() string {
 		eb, _ := json.Marshal(e.Calls)
